@@ -1175,3 +1175,32 @@ func (c *Corpus) WordSweep(seed []byte, maxPos int) (out [][]byte) {
 	}
 	return
 }
+
+// WordSweepLong returns variants of seed in which one 16-bit word (every offset below maxPos, both byte orders) holds a
+// value just below 65 536 and the input is continued to 66 100 bytes, so that a length check against the available data
+// passes and an offset computed from the word in 16 bits wraps.
+func (c *Corpus) WordSweepLong(seed []byte, maxPos int) (out [][]byte) {
+	if len(seed) < 2 {
+		return nil
+	}
+	const total = 66100
+	long := make([]byte, 0, total)
+	long = append(long, seed...)
+	for len(long) < total {
+		long = append(long, seed[:min(len(seed), total-len(long))]...)
+	}
+	for off := 0; off+2 <= len(seed) && off < maxPos; off++ {
+		for _, v := range []uint16{0xfff4, 0xfffa, 0xfffc, 0xfffd, 0xffff} {
+			for le := 0; le < 2; le++ {
+				b := append(make([]byte, 0, total), long...)
+				if le == 1 {
+					binary.LittleEndian.PutUint16(b[off:], v)
+				} else {
+					binary.BigEndian.PutUint16(b[off:], v)
+				}
+				out = append(out, b)
+			}
+		}
+	}
+	return
+}
